@@ -47,7 +47,9 @@ Definition cmd_call (st : cstate_t) (buf : list byte) : tres * cstate_t * list b
     else
       let off := pos - 2 in
       if L <? off then (TErr MissingData, st, buf)
-      else if L <? pos then (TErr MissingBuffer, st, buf)
+      else if L <? pos then
+        (* the header is written byte by byte: the part that fits is stored before the call gives up *)
+        (TErr MissingBuffer, st, firstn off buf ++ firstn (L - off) cmd_header ++ skipn L buf)
       else
         let buf' := firstn off buf ++ cmd_header ++ skipn pos buf in
         match find_zero (skipn pos buf') pos with
